@@ -1,5 +1,961 @@
 package main
 
-func replayDispatch(g *Gen, ob *Obligation, dir, repo, verif string) (bool, string, string) {
-	return false, "", ""
+// replay_harness.go: turn the solver's counterexample for a refuted obligation into an in-package Go test that
+// runs the REAL function on the model's inputs and evaluates the failed clause at run time.
+//
+// Scope (stated, not silently widened): functions whose parameters (and receiver) are integers, bools, strings,
+// slices of integers / bytes / strings, or pointers to structs with such fields; failed obligations of kind
+// "ensures" (the clause is re-evaluated dynamically) and "safety" (the run must panic). Clauses that mention ghost
+// state, heaps of other objects, streams or uninterpreted specification functions are not replayable: the check
+// then reports the violation with no-failing-input-found, as before.
+
+import (
+	"context"
+	"fmt"
+	"go/ast"
+	"go/token"
+	"go/types"
+	"math/big"
+	"os"
+	"os/exec"
+	"path/filepath"
+	"strings"
+
+	"golang.org/x/tools/go/ssa"
+)
+
+type rpParam struct {
+	name string
+	typ  types.Type
+	term string // SMT term of the value at function entry
 }
+
+// sexp is a minimal s-expression for parsing (get-value ...) answers.
+type sexp struct {
+	atom string
+	list []*sexp
+}
+
+func parseSexp(s string) []*sexp {
+	var stack [][]*sexp
+	cur := []*sexp{}
+	i := 0
+	for i < len(s) {
+		c := s[i]
+		switch {
+		case c == '(':
+			stack = append(stack, cur)
+			cur = []*sexp{}
+			i++
+		case c == ')':
+			node := &sexp{list: cur}
+			if len(stack) == 0 {
+				return cur
+			}
+			cur = stack[len(stack)-1]
+			stack = stack[:len(stack)-1]
+			cur = append(cur, node)
+			i++
+		case c == ' ' || c == '\n' || c == '\t' || c == '\r':
+			i++
+		case c == '|':
+			j := strings.IndexByte(s[i+1:], '|')
+			if j < 0 {
+				j = len(s) - i - 1
+			}
+			cur = append(cur, &sexp{atom: s[i : i+j+2]})
+			i += j + 2
+		default:
+			j := i
+			for j < len(s) && !strings.ContainsRune("() \n\t\r", rune(s[j])) {
+				j++
+			}
+			cur = append(cur, &sexp{atom: s[i:j]})
+			i = j
+		}
+	}
+	return cur
+}
+
+func (e *sexp) String() string {
+	if e.list == nil {
+		return e.atom
+	}
+	var parts []string
+	for _, c := range e.list {
+		parts = append(parts, c.String())
+	}
+	return "(" + strings.Join(parts, " ") + ")"
+}
+
+// intOf reads an SMT integer value: 5, (- 5), or a real like 5.0 / (/ 1.0 2.0) is rejected.
+func intOf(e *sexp) (*big.Int, bool) {
+	if e == nil {
+		return nil, false
+	}
+	if e.list == nil {
+		v, ok := new(big.Int).SetString(e.atom, 10)
+		return v, ok
+	}
+	if len(e.list) == 2 && e.list[0].atom == "-" {
+		v, ok := intOf(e.list[1])
+		if !ok {
+			return nil, false
+		}
+		return new(big.Int).Neg(v), true
+	}
+	return nil, false
+}
+
+// getValues asks the winning solver for the values of terms in the model of ob. Returns values in order.
+func (g *Gen) getValues(ob *Obligation, terms []string) ([]*sexp, bool) {
+	if len(terms) == 0 {
+		return nil, true
+	}
+	out := g.modelFor(ob, terms)
+	idx := strings.Index(out, "((")
+	if !strings.HasPrefix(strings.TrimSpace(out), "sat") || idx < 0 {
+		return nil, false
+	}
+	top := parseSexp(out[idx:])
+	if len(top) == 0 || top[0].list == nil {
+		return nil, false
+	}
+	var vals []*sexp
+	for _, pair := range top[0].list {
+		if pair.list == nil || len(pair.list) != 2 {
+			return nil, false
+		}
+		vals = append(vals, pair.list[1])
+	}
+	if len(vals) != len(terms) {
+		return nil, false
+	}
+	return vals, true
+}
+
+type rpGen struct {
+	g      *Gen
+	fv     *FuncVC
+	ob     *Obligation
+	lines  []string // Go statements constructing the inputs
+	names  map[string]types.Type
+	ptrs   map[string]*types.Struct // pointer-to-struct params
+	why    string
+	budget int
+}
+
+func (r *rpGen) fail(format string, a ...interface{}) bool {
+	if r.why == "" {
+		r.why = fmt.Sprintf(format, a...)
+	}
+	return false
+}
+
+func basicKind(t types.Type) (string, bool) {
+	b, ok := t.Underlying().(*types.Basic)
+	if !ok {
+		return "", false
+	}
+	switch {
+	case b.Info()&types.IsInteger != 0:
+		return "int", true
+	case b.Info()&types.IsBoolean != 0:
+		return "bool", true
+	case b.Info()&types.IsString != 0:
+		return "string", true
+	}
+	return "", false
+}
+
+func (r *rpGen) typeName(t types.Type) string {
+	return types.TypeString(t, func(p *types.Package) string {
+		if p.Path() == "github.com/absfs/absnfs" {
+			return ""
+		}
+		return p.Name()
+	})
+}
+
+// valueExpr builds a Go expression for the model value of SMT term `term` of Go type t.
+func (r *rpGen) valueExpr(term string, t types.Type) (string, bool) {
+	if k, ok := basicKind(t); ok {
+		switch k {
+		case "int":
+			vs, ok := r.g.getValues(r.ob, []string{term})
+			if !ok {
+				return "", r.fail("no model value for %s", term)
+			}
+			v, ok := intOf(vs[0])
+			if !ok {
+				return "", r.fail("non-integer model value %s", vs[0])
+			}
+			return fmt.Sprintf("%s(%s)", r.typeName(t), v.String()), true
+		case "bool":
+			vs, ok := r.g.getValues(r.ob, []string{term})
+			if !ok {
+				return "", r.fail("no model value for %s", term)
+			}
+			return vs[0].String(), true
+		case "string":
+			bs, ok := r.bytesOf(fmt.Sprintf("(slen %s)", term), func(i int) string { return fmt.Sprintf("(sat %s %d)", term, i) }, 300)
+			if !ok {
+				return "", false
+			}
+			return fmt.Sprintf("%s(%s)", r.typeName(t), goBytesLit(bs, true)), true
+		}
+	}
+	if sl, ok := t.Underlying().(*types.Slice); ok {
+		ek, ok := basicKind(sl.Elem())
+		if !ok {
+			return "", r.fail("slice of %s not supported", sl.Elem())
+		}
+		hn, hs := r.g.elemHeap(sl.Elem())
+		if r.fv.heapSort[hn] == "" {
+			_ = hs
+		}
+		lens, ok := r.g.getValues(r.ob, []string{fmt.Sprintf("(s.len %s)", term), fmt.Sprintf("(s.arr %s)", term)})
+		if !ok {
+			return "", r.fail("no model value for slice %s", term)
+		}
+		n, ok1 := intOf(lens[0])
+		arr, ok2 := intOf(lens[1])
+		if !ok1 || !ok2 || n.Sign() < 0 || n.Cmp(big.NewInt(512)) > 0 {
+			return "", r.fail("slice length %s not replayable", lens[0])
+		}
+		if arr.Sign() == 0 && n.Sign() == 0 {
+			return fmt.Sprintf("%s(nil)", r.typeName(t)), true
+		}
+		var elems []string
+		if ek == "int" && r.fv.heapSort[hn] != "" && n.Sign() > 0 {
+			// integer elements: one query for the whole slice
+			var terms []string
+			for i := 0; i < int(n.Int64()); i++ {
+				terms = append(terms, fmt.Sprintf("(select (select %s@0 (s.arr %s)) (+ (s.off %s) %d))", hn, term, term, i))
+			}
+			evs, ok := r.g.getValues(r.ob, terms)
+			if !ok {
+				return "", r.fail("no model values for the elements of %s", term)
+			}
+			for _, e := range evs {
+				v, ok := intOf(e)
+				if !ok {
+					return "", r.fail("element value %s", e)
+				}
+				elems = append(elems, v.String())
+			}
+			return fmt.Sprintf("%s{%s}", r.typeName(t), strings.Join(elems, ", ")), true
+		}
+		for i := 0; i < int(n.Int64()); i++ {
+			et := fmt.Sprintf("(select (select %s@0 (s.arr %s)) (+ (s.off %s) %d))", hn, term, term, i)
+			if r.fv.heapSort[hn] == "" {
+				elems = append(elems, zeroLit(ek))
+				continue
+			}
+			ev, ok := r.valueExpr(et, sl.Elem())
+			if !ok {
+				return "", false
+			}
+			elems = append(elems, ev)
+		}
+		return fmt.Sprintf("%s{%s}", r.typeName(t), strings.Join(elems, ", ")), true
+	}
+	if n, ok := t.(*types.Named); ok && n.Obj().Pkg() != nil && n.Obj().Pkg().Path() == "io" {
+		switch n.Obj().Name() {
+		case "Writer":
+			return "io.Writer(&bytes.Buffer{})", true
+		case "Reader":
+			// the bytes the reader will still deliver, from the stream ghosts of the entry state
+			if r.fv.heapSort["GH$rlen"] == "" || r.fv.heapSort["GH$rpos"] == "" {
+				return "io.Reader(bytes.NewReader(nil))", true
+			}
+			id := "(i.val " + term + ")"
+			lenTerm := fmt.Sprintf("(let ((n (- (select GH$rlen@0 %s) (select GH$rpos@0 %s)))) (ite (< n 0) 0 n))", id, id)
+			if r.fv.heapSort["GH$rdata"] == "" {
+				vs, ok := r.g.getValues(r.ob, []string{lenTerm})
+				if !ok {
+					return "", r.fail("no model value for the stream length")
+				}
+				n, ok := intOf(vs[0])
+				if !ok || n.Cmp(big.NewInt(1<<20)) > 0 {
+					return "", r.fail("stream length %s", vs[0])
+				}
+				return fmt.Sprintf("io.Reader(bytes.NewReader(make([]byte, %s)))", n.String()), true
+			}
+			bs, ok := r.bytesOf(lenTerm, func(i int) string {
+				return fmt.Sprintf("(let ((b (select (select GH$rdata@0 %s) (+ (select GH$rpos@0 %s) %d)))) (ite (and (<= 0 b) (<= b 255)) b 0))", id, id, i)
+			}, 4096)
+			if !ok {
+				return "", false
+			}
+			return "io.Reader(bytes.NewReader(" + goBytesLit(bs, false) + "))", true
+		}
+	}
+	return "", r.fail("type %s not supported", t)
+}
+
+func zeroLit(k string) string {
+	switch k {
+	case "bool":
+		return "false"
+	case "string":
+		return `""`
+	}
+	return "0"
+}
+
+func (r *rpGen) bytesOf(lenTerm string, at func(i int) string, max int) ([]byte, bool) {
+	vs, ok := r.g.getValues(r.ob, []string{lenTerm})
+	if !ok {
+		return nil, r.fail("no model value for %s", lenTerm)
+	}
+	n, ok := intOf(vs[0])
+	if !ok || n.Sign() < 0 || n.Cmp(big.NewInt(int64(max))) > 0 {
+		return nil, r.fail("length %s not replayable", vs[0])
+	}
+	var terms []string
+	for i := 0; i < int(n.Int64()); i++ {
+		terms = append(terms, at(i))
+	}
+	ev, ok := r.g.getValues(r.ob, terms)
+	if !ok {
+		return nil, r.fail("no model values for the bytes of %s", lenTerm)
+	}
+	out := make([]byte, len(ev))
+	for i, e := range ev {
+		v, ok := intOf(e)
+		if !ok || v.Sign() < 0 || v.Cmp(big.NewInt(255)) > 0 {
+			return nil, r.fail("byte value %s", e)
+		}
+		out[i] = byte(v.Int64())
+	}
+	return out, true
+}
+
+func goBytesLit(b []byte, asString bool) string {
+	var parts []string
+	for _, c := range b {
+		parts = append(parts, fmt.Sprint(c))
+	}
+	return "[]byte{" + strings.Join(parts, ", ") + "}"
+}
+
+// structExpr builds &T{...} for a pointer-to-struct parameter from the entry-state field heaps.
+func (r *rpGen) structExpr(term string, pt *types.Pointer) (string, bool) {
+	st, ok := pt.Elem().Underlying().(*types.Struct)
+	if !ok {
+		return "", r.fail("pointer to %s not supported", pt.Elem())
+	}
+	vs, ok := r.g.getValues(r.ob, []string{term})
+	if !ok {
+		return "", r.fail("no model value for %s", term)
+	}
+	ref, ok := intOf(vs[0])
+	if !ok {
+		return "", r.fail("reference value %s", vs[0])
+	}
+	if ref.Sign() == 0 {
+		return "nil", true
+	}
+	var fields []string
+	for i := 0; i < st.NumFields(); i++ {
+		f := st.Field(i)
+		if _, isB := basicKind(f.Type()); !isB {
+			if _, isS := f.Type().Underlying().(*types.Slice); !isS {
+				continue // other fields keep their zero value (the clause cannot mention them: see dyn)
+			}
+		}
+		hn, _ := r.g.fieldHeap(pt.Elem(), i)
+		if r.fv.heapSort[hn] == "" {
+			continue // never read by the function: zero is as good as any value
+		}
+		ve, ok := r.valueExpr(fmt.Sprintf("(select %s@0 %s)", hn, term), f.Type())
+		if !ok {
+			return "", false
+		}
+		fields = append(fields, fmt.Sprintf("%s: %s", f.Name(), ve))
+	}
+	return fmt.Sprintf("&%s{%s}", r.typeName(pt.Elem()), strings.Join(fields, ", ")), true
+}
+
+// ---- clause -> dynamic Go
+
+type dynEnv struct {
+	r      *rpGen
+	dynVar map[string]bool // bound variables holding dynamic values
+	inOld  bool
+	params map[string]types.Type
+	nres   int
+	depth  int
+}
+
+func (d *dynEnv) tr(e ast.Expr) (string, bool) {
+	switch n := e.(type) {
+	case *ast.ParenExpr:
+		return d.tr(n.X)
+	case *ast.BasicLit:
+		switch n.Kind {
+		case token.INT:
+			return fmt.Sprintf("rInt(%q)", n.Value), true
+		case token.STRING:
+			return "rN(" + n.Value + ")", true
+		case token.CHAR:
+			return "rN(int(" + n.Value + "))", true
+		}
+		return "", d.r.fail("literal %s", n.Value)
+	case *ast.Ident:
+		switch n.Name {
+		case "true", "false":
+			return "rv(" + n.Name + ")", true
+		case "nil":
+			return "rv(nil)", true
+		}
+		if d.dynVar[n.Name] {
+			return n.Name, true
+		}
+		if n.Name == "result" {
+			return "rN(result0)", true
+		}
+		if strings.HasPrefix(n.Name, "result") {
+			return "rN(" + n.Name + ")", true
+		}
+		if _, ok := d.params[n.Name]; ok {
+			if d.inOld {
+				return "rN(old_" + n.Name + ")", true
+			}
+			return "rN(" + n.Name + ")", true
+		}
+		if obj := d.r.g.tpkg.Scope().Lookup(n.Name); obj != nil {
+			if _, isConst := obj.(*types.Const); isConst {
+				return "rN(" + n.Name + ")", true // package-level constant: the in-package test names it directly
+			}
+		}
+		return "", d.r.fail("identifier %s is not an input or result of the function", n.Name)
+	case *ast.SelectorExpr:
+		if id, ok := n.X.(*ast.Ident); ok {
+			if pt, isParam := d.params[id.Name]; isParam {
+				if p, ok := pt.Underlying().(*types.Pointer); ok {
+					if st, ok := p.Elem().Underlying().(*types.Struct); ok {
+						for i := 0; i < st.NumFields(); i++ {
+							if st.Field(i).Name() == n.Sel.Name {
+								base := id.Name
+								if d.inOld {
+									base = "old_" + id.Name
+								}
+								return fmt.Sprintf("rN(%s.%s)", base, n.Sel.Name), true
+							}
+						}
+					}
+				}
+			}
+			if id.Name == "os" || id.Name == "math" {
+				return fmt.Sprintf("rN(%s.%s)", id.Name, n.Sel.Name), true
+			}
+		}
+		return "", d.r.fail("selector %s", exprText(n))
+	case *ast.UnaryExpr:
+		x, ok := d.tr(n.X)
+		if !ok {
+			return "", false
+		}
+		switch n.Op {
+		case token.NOT:
+			return "rNot(" + x + ")", true
+		case token.SUB:
+			return "rBin(\"-\", rInt(\"0\"), " + x + ")", true
+		}
+		return "", d.r.fail("unary %s", n.Op)
+	case *ast.BinaryExpr:
+		a, ok := d.tr(n.X)
+		if !ok {
+			return "", false
+		}
+		b, ok := d.tr(n.Y)
+		if !ok {
+			return "", false
+		}
+		return fmt.Sprintf("rBin(%q, %s, %s)", n.Op.String(), a, b), true
+	case *ast.IndexExpr:
+		a, ok := d.tr(n.X)
+		if !ok {
+			return "", false
+		}
+		i, ok := d.tr(n.Index)
+		if !ok {
+			return "", false
+		}
+		return fmt.Sprintf("rIdx(%s, %s)", a, i), true
+	case *ast.CallExpr:
+		return d.call(n)
+	}
+	return "", d.r.fail("expression %T", e)
+}
+
+func (d *dynEnv) args(as []ast.Expr) ([]string, bool) {
+	var out []string
+	for _, a := range as {
+		s, ok := d.tr(a)
+		if !ok {
+			return nil, false
+		}
+		out = append(out, s)
+	}
+	return out, true
+}
+
+func (d *dynEnv) call(n *ast.CallExpr) (string, bool) {
+	id, ok := n.Fun.(*ast.Ident)
+	if !ok {
+		return "", d.r.fail("call of %s", exprText(n.Fun))
+	}
+	switch id.Name {
+	case "old":
+		if len(n.Args) != 1 {
+			return "", d.r.fail("old arity")
+		}
+		saved := d.inOld
+		d.inOld = true
+		s, ok := d.tr(n.Args[0])
+		d.inOld = saved
+		return s, ok
+	case "implies", "iff", "min", "max":
+		as, ok := d.args(n.Args)
+		if !ok || len(as) != 2 {
+			return "", false
+		}
+		return fmt.Sprintf("r%s(%s, %s)", strings.Title(id.Name), as[0], as[1]), true
+	case "ite":
+		as, ok := d.args(n.Args)
+		if !ok || len(as) != 3 {
+			return "", false
+		}
+		return fmt.Sprintf("rIte(%s, %s, %s)", as[0], as[1], as[2]), true
+	case "len":
+		as, ok := d.args(n.Args)
+		if !ok || len(as) != 1 {
+			return "", false
+		}
+		return "rLen(" + as[0] + ")", true
+	case "isnil":
+		// isnil takes the raw Go value (an error or interface result)
+		if a, ok := n.Args[0].(*ast.Ident); ok && (strings.HasPrefix(a.Name, "result") || a.Name == "err") {
+			name := a.Name
+			if name == "result" {
+				name = "result0"
+			}
+			return "rv(rIsNil(" + name + "))", true
+		}
+		return "", d.r.fail("isnil of %s", exprText(n.Args[0]))
+	case "forall", "exists":
+		if len(n.Args) < 4 {
+			return "", d.r.fail("typed quantifier not replayable")
+		}
+		v, ok := n.Args[0].(*ast.Ident)
+		if !ok {
+			return "", d.r.fail("quantifier variable")
+		}
+		lo, ok := d.tr(n.Args[1])
+		if !ok {
+			return "", false
+		}
+		hi, ok := d.tr(n.Args[2])
+		if !ok {
+			return "", false
+		}
+		saved := d.dynVar[v.Name]
+		d.dynVar[v.Name] = true
+		body, ok := d.tr(n.Args[3])
+		d.dynVar[v.Name] = saved
+		if !ok {
+			return "", false
+		}
+		return fmt.Sprintf("r%s(%s, %s, func(%s rv) rv { return %s })", strings.Title(id.Name), lo, hi, v.Name, body), true
+	case "uint8", "uint16", "uint32", "uint64", "int8", "int16", "int32", "int64", "int", "uint", "byte":
+		as, ok := d.args(n.Args)
+		if !ok || len(as) != 1 {
+			return "", false
+		}
+		return fmt.Sprintf("rConv(%q, %s)", id.Name, as[0]), true
+	case "lower":
+		as, ok := d.args(n.Args)
+		if !ok || len(as) != 1 {
+			return "", false
+		}
+		return "rLower(" + as[0] + ")", true
+	}
+	// specification function with a body: inline as a closure over dynamic values
+	if sf, ok := d.r.g.spec.SpecFuns[id.Name]; ok && sf.Body != nil && d.depth < 6 {
+		as, ok := d.args(n.Args)
+		if !ok || len(as) != len(sf.Params) {
+			return "", false
+		}
+		inner := &dynEnv{r: d.r, dynVar: map[string]bool{}, params: map[string]types.Type{}, depth: d.depth + 1}
+		var formals []string
+		for _, p := range sf.Params {
+			inner.dynVar[p.Name] = true
+			formals = append(formals, p.Name+" rv")
+		}
+		body, ok := inner.tr(sf.Body)
+		if !ok {
+			return "", false
+		}
+		return fmt.Sprintf("func(%s) rv { return %s }(%s)", strings.Join(formals, ", "), body, strings.Join(as, ", ")), true
+	}
+	return "", d.r.fail("specification function %s is not executable", id.Name)
+}
+
+const replayPrelude = `
+type rv = interface{}
+
+func rInt(s string) rv { v, _ := new(big.Int).SetString(s, 0); return v }
+func rN(x interface{}) rv {
+	if x == nil {
+		return nil
+	}
+	v := reflect.ValueOf(x)
+	switch v.Kind() {
+	case reflect.Bool:
+		return v.Bool()
+	case reflect.Int, reflect.Int8, reflect.Int16, reflect.Int32, reflect.Int64:
+		return big.NewInt(v.Int())
+	case reflect.Uint, reflect.Uint8, reflect.Uint16, reflect.Uint32, reflect.Uint64, reflect.Uintptr:
+		return new(big.Int).SetUint64(v.Uint())
+	case reflect.String:
+		return v.String()
+	case reflect.Slice:
+		out := make([]rv, v.Len())
+		for i := range out {
+			out[i] = rN(v.Index(i).Interface())
+		}
+		return out
+	case reflect.Ptr, reflect.Interface:
+		if v.IsNil() {
+			return nil
+		}
+	}
+	return x
+}
+func rIsNil(x interface{}) bool {
+	if x == nil {
+		return true
+	}
+	v := reflect.ValueOf(x)
+	switch v.Kind() {
+	case reflect.Ptr, reflect.Interface, reflect.Slice, reflect.Map, reflect.Func, reflect.Chan:
+		return v.IsNil()
+	}
+	return false
+}
+func rB(x rv) bool { b, ok := x.(bool); if !ok { panic(fmt.Sprintf("replay: not a bool: %v", x)) }; return b }
+func rI(x rv) *big.Int { b, ok := x.(*big.Int); if !ok { panic(fmt.Sprintf("replay: not an integer: %v", x)) }; return b }
+func rNot(a rv) rv { return !rB(a) }
+func rImplies(a, b rv) rv { return !rB(a) || rB(b) }
+func rIff(a, b rv) rv { return rB(a) == rB(b) }
+func rIte(c, a, b rv) rv { if rB(c) { return a }; return b }
+func rMin(a, b rv) rv { if rI(a).Cmp(rI(b)) <= 0 { return a }; return b }
+func rMax(a, b rv) rv { if rI(a).Cmp(rI(b)) >= 0 { return a }; return b }
+func rLower(a rv) rv { return strings.ToLower(a.(string)) }
+func rLen(a rv) rv {
+	switch x := a.(type) {
+	case string:
+		return big.NewInt(int64(len(x)))
+	case []rv:
+		return big.NewInt(int64(len(x)))
+	case nil:
+		return big.NewInt(0)
+	}
+	panic(fmt.Sprintf("replay: len of %T", a))
+}
+func rIdx(a, i rv) rv {
+	k := int(rI(i).Int64())
+	switch x := a.(type) {
+	case string:
+		return big.NewInt(int64(x[k]))
+	case []rv:
+		return x[k]
+	}
+	panic(fmt.Sprintf("replay: index of %T", a))
+}
+func rEq(a, b rv) bool {
+	switch x := a.(type) {
+	case *big.Int:
+		y, ok := b.(*big.Int)
+		return ok && x.Cmp(y) == 0
+	case nil:
+		return b == nil
+	}
+	return reflect.DeepEqual(a, b)
+}
+func rBin(op string, a, b rv) rv {
+	switch op {
+	case "&&":
+		return rB(a) && rB(b)
+	case "||":
+		return rB(a) || rB(b)
+	case "==":
+		return rEq(a, b)
+	case "!=":
+		return !rEq(a, b)
+	}
+	x, y := rI(a), rI(b)
+	switch op {
+	case "<":
+		return x.Cmp(y) < 0
+	case "<=":
+		return x.Cmp(y) <= 0
+	case ">":
+		return x.Cmp(y) > 0
+	case ">=":
+		return x.Cmp(y) >= 0
+	case "+":
+		return new(big.Int).Add(x, y)
+	case "-":
+		return new(big.Int).Sub(x, y)
+	case "*":
+		return new(big.Int).Mul(x, y)
+	case "/":
+		return new(big.Int).Quo(x, y)
+	case "%":
+		return new(big.Int).Rem(x, y)
+	case "&":
+		return new(big.Int).And(x, y)
+	case "|":
+		return new(big.Int).Or(x, y)
+	case "&^":
+		return new(big.Int).AndNot(x, y)
+	}
+	panic("replay: operator " + op)
+}
+func rConv(t string, a rv) rv {
+	bits := map[string]uint{"uint8": 8, "byte": 8, "uint16": 16, "uint32": 32, "uint64": 64, "uint": 64, "int8": 8, "int16": 16, "int32": 32, "int64": 64, "int": 64}[t]
+	m := new(big.Int).Lsh(big.NewInt(1), bits)
+	v := new(big.Int).Mod(rI(a), m)
+	if t[0] == 'i' && v.Cmp(new(big.Int).Rsh(m, 1)) >= 0 {
+		v.Sub(v, m)
+	}
+	return v
+}
+func rForall(lo, hi rv, f func(rv) rv) rv {
+	for i := new(big.Int).Set(rI(lo)); i.Cmp(rI(hi)) < 0; i = new(big.Int).Add(i, big.NewInt(1)) {
+		if !rB(f(i)) {
+			return false
+		}
+	}
+	return true
+}
+func rExists(lo, hi rv, f func(rv) rv) rv {
+	for i := new(big.Int).Set(rI(lo)); i.Cmp(rI(hi)) < 0; i = new(big.Int).Add(i, big.NewInt(1)) {
+		if rB(f(i)) {
+			return true
+		}
+	}
+	return false
+}
+`
+
+func replayDispatch(g *Gen, ob *Obligation, dir, repo, verif string) (bool, string, string) {
+	fv := ob.fv
+	if fv == nil || fv.fn == nil || (ob.Kind != "ensures" && ob.Kind != "safety") {
+		return false, "", ""
+	}
+	fn := fv.fn
+	if fn.Parent() != nil {
+		return false, "", "" // closures: captured state is not reconstructed
+	}
+	isMethod := fn.Signature.Recv() != nil
+	if isMethod {
+		if _, ok := fn.Signature.Recv().Type().Underlying().(*types.Pointer); !ok {
+			return false, "", "not replayable: value receiver"
+		}
+	}
+	r := &rpGen{g: g, fv: fv, ob: ob, names: map[string]types.Type{}}
+	var params []rpParam
+	for _, p := range fn.Params {
+		pv := fv.params[p.Name()]
+		if pv == nil || pv.T == "" {
+			return false, "", "not replayable: parameter " + p.Name() + " has no entry value"
+		}
+		params = append(params, rpParam{p.Name(), p.Type(), pv.T})
+	}
+	// prefer a small counterexample: ask again with every string / slice / stream input at most 48 long
+	if small := g.smallModelQuery(ob, fv, params); small != nil {
+		ob = small
+		r.ob = small
+	}
+	var b strings.Builder
+	testName := "TestVerifReplay_" + sanitizeGoName(ob.Name)
+	b.WriteString("package absnfs\n\n// Replay of the solver's counterexample for obligation\n//   " + ob.Name + "\n// clause: " + strings.ReplaceAll(ob.Src, "\n", " ") + "\n// generated by govc; run with /verif/replay <this file>\n\n")
+	b.WriteString("import (\n\t\"bytes\"\n\t\"fmt\"\n\t\"io\"\n\t\"math\"\n\t\"math/big\"\n\t\"os\"\n\t\"reflect\"\n\t\"strings\"\n\t\"testing\"\n)\n\nvar _ = fmt.Sprint\nvar _ = math.MaxInt8\nvar _ = os.ModeDir\nvar _ = strings.ToLower\nvar _ = bytes.NewReader\nvar _ io.Reader\n")
+	b.WriteString(replayPrelude)
+	b.WriteString("\nfunc " + testName + "(t *testing.T) {\n")
+	ptypes := map[string]types.Type{}
+	var argNames []string
+	for _, p := range params {
+		var ve string
+		var ok bool
+		if pt, isPtr := p.typ.Underlying().(*types.Pointer); isPtr {
+			ve, ok = r.structExpr(p.term, pt)
+		} else {
+			ve, ok = r.valueExpr(p.term, p.typ)
+		}
+		if !ok {
+			return false, "", "not replayable: " + r.why
+		}
+		fmt.Fprintf(&b, "\t%s := %s\n", p.name, ve)
+		ptypes[p.name] = p.typ
+		argNames = append(argNames, p.name)
+		// entry-state copy for old(...)
+		if _, isPtr := p.typ.Underlying().(*types.Pointer); isPtr {
+			fmt.Fprintf(&b, "\told_%s := %s\n\tif %s != nil {\n\t\tc := *%s\n\t\told_%s = &c\n", p.name, p.name, p.name, p.name, p.name)
+			st := p.typ.Underlying().(*types.Pointer).Elem().Underlying().(*types.Struct)
+			for i := 0; i < st.NumFields(); i++ {
+				if _, isS := st.Field(i).Type().Underlying().(*types.Slice); isS {
+					fmt.Fprintf(&b, "\t\told_%s.%s = append(%s(nil), %s.%s...)\n", p.name, st.Field(i).Name(), r.typeName(st.Field(i).Type()), p.name, st.Field(i).Name())
+				}
+			}
+			b.WriteString("\t}\n")
+		} else if _, isS := p.typ.Underlying().(*types.Slice); isS {
+			fmt.Fprintf(&b, "\told_%s := append(%s(nil), %s...)\n", p.name, r.typeName(p.typ), p.name)
+		} else {
+			fmt.Fprintf(&b, "\told_%s := %s\n", p.name, p.name)
+		}
+		fmt.Fprintf(&b, "\t_ = old_%s\n", p.name)
+	}
+	nres := fn.Signature.Results().Len()
+	var resNames []string
+	for i := 0; i < nres; i++ {
+		resNames = append(resNames, fmt.Sprintf("result%d", i))
+	}
+	call := fmt.Sprintf("%s(%s)", fn.Name(), strings.Join(argNames, ", "))
+	if isMethod {
+		if len(argNames) == 0 {
+			return false, "", "not replayable: receiver"
+		}
+		call = fmt.Sprintf("%s.%s(%s)", argNames[0], fn.Name(), strings.Join(argNames[1:], ", "))
+	}
+	inputs := "fmt.Sprint(" + strings.Join(quoteEach(argNames), ", ") + ")"
+	if ob.Kind == "safety" {
+		b.WriteString("\tdefer func() {\n\t\tif p := recover(); p != nil {\n\t\t\tt.Fatalf(\"REPLAY-FAIL: the real function panics on the solver's input: %v\", p)\n\t\t}\n\t}()\n")
+		b.WriteString("\t" + call + "\n}\n")
+	} else {
+		clause, err := parseSpecExpr(ob.Src)
+		if err != nil {
+			return false, "", "not replayable: clause does not parse"
+		}
+		d := &dynEnv{r: r, dynVar: map[string]bool{}, params: ptypes, nres: nres}
+		dyn, ok := d.tr(clause)
+		if !ok {
+			return false, "", "not replayable: " + r.why
+		}
+		if nres > 0 {
+			fmt.Fprintf(&b, "\t%s := %s\n", strings.Join(resNames, ", "), call)
+			for _, rn := range resNames {
+				fmt.Fprintf(&b, "\t_ = %s\n", rn)
+			}
+		} else {
+			b.WriteString("\t" + call + "\n")
+		}
+		fmt.Fprintf(&b, "\tif !rB(%s) {\n\t\tt.Fatalf(\"REPLAY-FAIL: on the solver's input the real function violates the clause; inputs (name, entry value ...): %%s\", %s)\n\t}\n}\n", dyn, inputs)
+	}
+	os.MkdirAll(dir, 0o755)
+	path := filepath.Join(dir, fileSafe(ob.Name)+"_replay_test.go")
+	if err := os.WriteFile(path, []byte(b.String()), 0o644); err != nil {
+		return false, "", err.Error()
+	}
+	// run it against the repository under check, without writing into it
+	ov := filepath.Join(dir, fileSafe(ob.Name)+".overlay.json")
+	os.WriteFile(ov, []byte(fmt.Sprintf("{\"Replace\": {%q: %q}}", filepath.Join(repo, "zz_replay_verif_test.go"), path)), 0o644)
+	defer os.Remove(ov)
+	cmd := exec.Command("go", "test", "-overlay", ov, "-vet=off", "-count=1", "-timeout", "60s", "-run", "^"+testName+"$", ".")
+	cmd.Dir = repo
+	cmd.Env = append(os.Environ(), "GOFLAGS=-mod=mod", "GOPROXY=off", "GOSUMDB=off", "GOTOOLCHAIN=local")
+	out, _ := cmd.CombinedOutput()
+	log := string(out)
+	if len(log) > 1500 {
+		log = log[:1500]
+	}
+	return strings.Contains(string(out), "REPLAY-FAIL"), path, log
+}
+
+// smallModelQuery re-asks the refuted obligation with size bounds on the inputs; if it is still satisfiable the
+// returned copy of the obligation points at the bounded query (its model is then a small counterexample).
+func (g *Gen) smallModelQuery(ob *Obligation, fv *FuncVC, params []rpParam) *Obligation {
+	var bounds []string
+	sizeOf := func(term string, t types.Type) {
+		if k, ok := basicKind(t); ok && k == "string" {
+			bounds = append(bounds, fmt.Sprintf("(<= (slen %s) 48)", term))
+		}
+		if _, ok := t.Underlying().(*types.Slice); ok {
+			bounds = append(bounds, fmt.Sprintf("(<= (s.len %s) 48)", term))
+		}
+		if n, ok := t.(*types.Named); ok && n.Obj().Pkg() != nil && n.Obj().Pkg().Path() == "io" && n.Obj().Name() == "Reader" {
+			if fv.heapSort["GH$rlen"] != "" && fv.heapSort["GH$rpos"] != "" {
+				bounds = append(bounds, fmt.Sprintf("(<= (- (select GH$rlen@0 (i.val %s)) (select GH$rpos@0 (i.val %s))) 96)", term, term))
+			}
+		}
+	}
+	for _, p := range params {
+		if pt, ok := p.typ.Underlying().(*types.Pointer); ok {
+			if st, ok := pt.Elem().Underlying().(*types.Struct); ok {
+				for i := 0; i < st.NumFields(); i++ {
+					hn, _ := g.fieldHeap(pt.Elem(), i)
+					if fv.heapSort[hn] != "" {
+						sizeOf(fmt.Sprintf("(select %s@0 %s)", hn, p.term), st.Field(i).Type())
+					}
+				}
+			}
+			continue
+		}
+		sizeOf(p.term, p.typ)
+	}
+	if len(bounds) == 0 || ob.File == "" {
+		return nil
+	}
+	data, err := os.ReadFile(ob.File)
+	if err != nil {
+		return nil
+	}
+	q := string(data)
+	k := strings.LastIndex(q, "(check-sat)")
+	if k < 0 {
+		return nil
+	}
+	var extra strings.Builder
+	for _, b := range bounds {
+		extra.WriteString("(assert " + b + ")\n")
+	}
+	f := strings.TrimSuffix(ob.File, ".smt2") + ".small.smt2"
+	if os.WriteFile(f, []byte(q[:k]+extra.String()+"(check-sat)\n"), 0o644) != nil {
+		return nil
+	}
+	res := runSolver(context.Background(), solvers[0], f, 20000, 0, false)
+	if res.verdict != "sat" {
+		os.Remove(f)
+		return nil
+	}
+	cp := *ob
+	cp.File = f
+	return &cp
+}
+
+func quoteEach(names []string) []string {
+	var out []string
+	for _, n := range names {
+		out = append(out, fmt.Sprintf("%q, fmt.Sprintf(\"%%#v\", old_%s)", " "+n+"=", n))
+	}
+	return out
+}
+
+func sanitizeGoName(s string) string {
+	var b strings.Builder
+	for _, r := range s {
+		if r >= 'a' && r <= 'z' || r >= 'A' && r <= 'Z' || r >= '0' && r <= '9' {
+			b.WriteRune(r)
+		} else {
+			b.WriteRune('_')
+		}
+	}
+	return b.String()
+}
+
+var _ = ssa.Value(nil)
